@@ -1,3 +1,48 @@
-From Flodym Require Import Base.ND.
-Theorem placeholder : True. Proof. exact I. Qed.
-Print Assumptions placeholder.
+(* C09 — cohort tables add up to the totals and each cohort is conserved.  Statements only. *)
+From Coq Require Import List Arith Field_theory.
+Import ListNotations.
+From Flodym Require Import Base.ND Model.Stocks Proofs.StockAlgebra Proofs.StockModel Proofs.StockRoundtrip.
+
+Section G.
+Variable F : Type.
+Variables (fO fI : F) (fadd fmul fsub : F -> F -> F) (fopp : F -> F) (fdiv : F -> F -> F) (finv : F -> F).
+Variable Fth : field_theory fO fI fadd fmul fsub fopp fdiv finv eq.
+Notation nthF := (nthF F fO).
+Notation nth2 := (nth2 F fO).
+Notation idsm := (idsm F fO fI fadd fmul fsub fdiv true).
+Notation sdsm := (sdsm F fO fI fadd fmul fsub fdiv true).
+
+(* totals are the sums of the cohort tables over the cohort axis *)
+Theorem C09_stock_is_cohort_sum : forall n dt inflow sf t,
+  nthF (o_stock F (idsm n dt inflow sf)) t = sum fO fadd (nth t (o_sbc F (idsm n dt inflow sf)) []).
+Proof. intros; eapply idsm_stock_is_cohort_sum; eauto. Qed.
+
+Theorem C09_outflow_is_cohort_sum : forall n dt inflow sf t,
+  nthF (o_outflow F (idsm n dt inflow sf)) t = sum fO fadd (nth t (o_obc F (idsm n dt inflow sf)) []).
+Proof. intros; eapply idsm_outflow_is_cohort_sum; eauto. Qed.
+
+(* each cohort's stock = its whole-interval inflow (rate x interval length) x survival share *)
+Theorem C09_cohort_stock_entry : forall n dt inflow sf, length dt = n -> length inflow = n ->
+  forall t c, t < n -> c < n ->
+  nth2 (o_sbc F (idsm n dt inflow sf)) t c = fmul (fmul (nthF inflow c) (nthF dt c)) (nth2 sf t c).
+Proof. intros; eapply idsm_cohort_entry; eauto. Qed.
+
+(* what entered a cohort = what is still in stock + what has left so far; and
+   survival + cumulated outflow probabilities = 1 (for every lower-triangular survival table) *)
+Theorem C09_cohort_conserved : forall (sf : nat -> nat -> F), (forall t c, t < c -> sf t c = fO) ->
+  forall (w : nat -> F) c t, c <= t ->
+  w c = fadd (fmul (w c) (sf t c)) (ssum F fO fadd (S t) (fun tau => fmul (w c) (pdf F fO fI fsub sf tau c))).
+Proof. intros; eapply cohort_conserved; eauto. Qed.
+
+(* the stock-driven model has the same tables as the inflow-driven model run on its inflow *)
+Theorem C09_stock_driven_tables : forall n dt sf s,
+  o_outflow F (sdsm n dt s sf) = o_outflow F (idsm n dt (o_inflow F (sdsm n dt s sf)) sf)
+  /\ o_sbc F (sdsm n dt s sf) = o_sbc F (idsm n dt (o_inflow F (sdsm n dt s sf)) sf)
+  /\ o_obc F (sdsm n dt s sf) = o_obc F (idsm n dt (o_inflow F (sdsm n dt s sf)) sf).
+Proof. intros; eapply sdsm_as_idsm; eauto. Qed.
+End G.
+Print Assumptions C09_stock_is_cohort_sum.
+Print Assumptions C09_outflow_is_cohort_sum.
+Print Assumptions C09_cohort_stock_entry.
+Print Assumptions C09_cohort_conserved.
+Print Assumptions C09_stock_driven_tables.
